@@ -249,13 +249,17 @@ class Seams(object):
                 self.probes["work_budget_cut:" + kname] += 1
                 self.kernel_events.append((full, shape, "budget-cut"))
                 raise LinAlgError("simulated: work budget of %s exceeded (||A||_1 = %.3g)" % (kname, nrm))
-        if kname == "sp.eig" and isinstance(a0, np.ndarray) and a0.size and not np.all(np.isfinite(a0)):
-            # SciPy 1.18.1: scipy.linalg.eig(check_finite=False) on a matrix containing inf/NaN writes past the end of a
-            # heap block (valgrind: transform_eigvecs in _batched_linalg) and the process dies later in free().  A dead
-            # process cannot be simulated further, so the seam answers what check_finite=True would have answered.
-            self.probes["nonfinite_input_refused:sp.eig"] += 1
-            self.kernel_events.append((full, shape, "refused-nonfinite"))
-            raise ValueError("array must not contain infs or NaNs (simulated check_finite)")
+        if kname != "expm_multiply":
+            # Non-finite input to a LAPACK/ARPACK-level kernel called with check_finite=False: with SciPy 1.18.1 /
+            # OpenBLAS this is not merely "garbage out" -- scipy.linalg.eig writes past the end of a heap block
+            # (valgrind: transform_eigvecs) and the process dies later in free(); gesvd on a 4x4 matrix holding +-inf
+            # spins inside dbdsqr for minutes (observed with gdb), which no Python-level alarm can interrupt.  A dead or
+            # hung process cannot be simulated further, so the seam answers what check_finite=True would have answered.
+            for x in a[:2]:
+                if isinstance(x, np.ndarray) and x.dtype.kind in "fc" and x.size and not np.all(np.isfinite(x)):
+                    self.probes["nonfinite_input_refused:" + kname] += 1
+                    self.kernel_events.append((full, shape, "refused-nonfinite"))
+                    raise ValueError("array must not contain infs or NaNs (simulated check_finite)")
         if kname == "sp.solve" and k.get("overwrite_a"):
             # SciPy 1.18.1: scipy.linalg.solve(A, b, overwrite_a=True) with an F-contiguous, numerically singular A
             # segfaults (reproduced stand-alone with a finite 3x3 matrix of rank 2).  scikit_tt only ever passes a
